@@ -941,7 +941,8 @@ class Visitor(ast.NodeVisitor):
                     )
                 )
 
-            self._name_to_value[target.id] = value
+            # A private name written in a class body is looked up (and compiled) under its mangled name.
+            self._name_to_value[self._mangled_names.get(target.id, target.id)] = value
 
             return value
 
@@ -1122,19 +1123,14 @@ class Visitor(ast.NodeVisitor):
         #
         # Only the names which the comprehension refers to matter; an unknown value of an unrelated name
         # (*e.g.*, the target of a named expression in another comprehension) does not prevent the re-computation.
+        #
+        # (A name which the comprehension both reads and binds by a named expression of its own is not exempted:
+        # it might be read before it is bound, *e.g.*, ``[(total := total + x) for x in xs]``.)
         names_in_comprehension = {
-            a_node.id
+            self._mangled_names.get(a_node.id, a_node.id)
             for a_node in ast.walk(node)
             if isinstance(a_node, ast.Name) and isinstance(a_node.ctx, ast.Load)
         }
-        if sys.version_info >= (3, 8):
-            # The comprehension binds the targets of its named expressions itself.
-            names_in_comprehension -= {
-                a_node.target.id
-                for a_node in ast.walk(node)
-                if isinstance(a_node, ast.NamedExpr)
-                and isinstance(a_node.target, ast.Name)
-            }
         if any(
             self._name_to_value.get(name, None) is PLACEHOLDER
             for name in names_in_comprehension
@@ -1214,7 +1210,9 @@ class Visitor(ast.NodeVisitor):
                 if isinstance(a_node, ast.NamedExpr) and isinstance(
                     a_node.target, ast.Name
                 ):
-                    self._name_to_value[a_node.target.id] = PLACEHOLDER
+                    self._name_to_value[
+                        self._mangled_names.get(a_node.target.id, a_node.target.id)
+                    ] = PLACEHOLDER
 
     def _visit_parts_of_comprehension(
         self, parts: List[ast.expr], generators: List[ast.comprehension]
